@@ -21,7 +21,8 @@ CONSTANTS MaxN,
 VARIABLES firsts, offs, v, oid, refuse, o32, o64, len, fansteps
 vars == <<firsts, offs, v, oid, refuse, o32, o64, len, fansteps>>
 
-FirstBytes == {0, 1, 127, 128, 254, 255}
+\* tables of three entries: fewer first bytes (the product with 7^3 offset tables stays enumerable in minutes)
+FirstBytes == IF MaxN >= 3 THEN {0, 1, 255} ELSE {0, 1, 127, 128, 254, 255}
 OffSet == { N(12), <<1, B - 1>>, <<2, 0>>, <<2, 1>>, <<3, B - 1>>, <<4, 0>>, <<1024, 0>> }
 
 RECURSIVE NonDecr(_)
